@@ -280,3 +280,27 @@ package keeper
 //@ func Keeper.Logger(ctx) (l)
 //@   trusted the logger handle is not modelled; the method only derives a logger from the context
 //@   pure
+
+
+// ---------------------------------------------------------------- fee coins (read by the ante decorator)
+
+//@ func Keeper.GetZeroFeeAsCoin(ctx) (c)
+//@   props C06
+//@   pure
+//@   requires wrkParamsSet(wrk_store) && validDenom(wrkParams(wrk_store).Denom)
+//@   ensures c.Denom == wrkParams(wrk_store).Denom && !isnil(c.Amount) && Amt(c) == 0
+//@ func Keeper.GetRegistrationFeeAsCoin(ctx) (c)
+//@   props C06
+//@   pure
+//@   requires wrkParamsSet(wrk_store) && validDenom(wrkParams(wrk_store).Denom)
+//@   ensures c.Denom == wrkParams(wrk_store).Denom && !isnil(c.Amount) && Amt(c) == wrkParams(wrk_store).FeeRegister
+//@ func Keeper.GetRecordFeeAsCoin(ctx) (c)
+//@   props C06
+//@   pure
+//@   requires wrkParamsSet(wrk_store) && validDenom(wrkParams(wrk_store).Denom)
+//@   ensures c.Denom == wrkParams(wrk_store).Denom && !isnil(c.Amount) && Amt(c) == wrkParams(wrk_store).FeeRecord
+//@ func Keeper.GetPurchaseStorageFeeAsCoin(ctx) (c)
+//@   props C06
+//@   pure
+//@   requires wrkParamsSet(wrk_store) && validDenom(wrkParams(wrk_store).Denom)
+//@   ensures c.Denom == wrkParams(wrk_store).Denom && !isnil(c.Amount) && Amt(c) == wrkParams(wrk_store).FeePurchaseStorage
